@@ -521,6 +521,7 @@ func (s *Syncer) LoadOnce(ctx context.Context, env *lmdb.Env, instance string, u
 		return 0, false, err
 	}
 	tLoaded := time.Now()
+	verifYield("LoadOnce.afterTxn")
 
 	// If no actual changes were made, LMDB will not record the transaction
 	// and reuse the ID the next time, so we need to adjust the txnID we return.
